@@ -5,6 +5,7 @@ package core
 
 import (
 	"fmt"
+	"os"
 	"runtime"
 	"sort"
 	"strconv"
@@ -116,8 +117,15 @@ func (s *Sim) lock() { raceOff(); s.mu.Lock() }
 //go:norace
 func (s *Sim) unlock() { s.mu.Unlock(); raceOn() }
 
+// Trace makes every event-log line go to stderr as it is produced (debugging
+// stalls).
+var Trace = os.Getenv("VERIF_TRACE") != ""
+
 //go:norace
 func (s *Sim) appendLog(line string) {
+	if Trace {
+		os.Stderr.WriteString(line + "\n")
+	}
 	if len(s.log) == cap(s.log) {
 		nl := make([]string, len(s.log), 2*cap(s.log))
 		for i := range s.log {
@@ -331,7 +339,7 @@ func (s *Sim) Yield(pt, detail string) {
 		s.unlock()
 		runtime.Goexit()
 	}
-	if !s.armed || s.stopped {
+	if (!s.armed && pt != "start") || s.stopped {
 		s.unlock()
 		return
 	}
